@@ -683,11 +683,15 @@ func indexEntryMapperFor(index, primaryIndex *Index) store.EntryMapper {
 	valueExtractor := func(value []byte, valuesByColID map[uint32]TypedValue) error {
 		voff := 0
 
+		if len(value) < EncLenLen {
+			return fmt.Errorf("key is lower than required")
+		}
+
 		cols := int(binary.BigEndian.Uint32(value[voff:]))
 		voff += EncLenLen
 
 		for i := 0; i < cols; i++ {
-			if len(value) < EncIDLen {
+			if len(value)-voff < EncIDLen {
 				return fmt.Errorf("key is lower than required")
 			}
 
@@ -696,7 +700,15 @@ func indexEntryMapperFor(index, primaryIndex *Index) store.EntryMapper {
 
 			col, err := index.table.GetColumnByID(colID)
 			if errors.Is(err, ErrColumnDoesNotExist) {
+				if len(value)-voff < EncLenLen {
+					return fmt.Errorf("key is lower than required")
+				}
+
 				vlen := int(binary.BigEndian.Uint32(value[voff:]))
+				if len(value)-voff-EncLenLen < vlen {
+					return fmt.Errorf("key is lower than required")
+				}
+
 				voff += EncLenLen + vlen
 				continue
 			} else if err != nil {
